@@ -74,7 +74,9 @@ TInterrupt == IsEvent("interrupt") /\ Interrupt({<<Ev.disk[k][1], Ev.disk[k][2]>
 TRejectChanged == IsEvent("reject") /\ phase = "idle" /\ ~Ev.cleanup
                   /\ Ev.new_inputs # <<>> /\ Ev.new_inputs # inp /\ UNCHANGED mvars /\ UNCHANGED exc
 
-Next == TRejectChanged \/ TStored \/ TLoad \/ TInterrupt \/ TBegin \/ TCall \/ TRet \/ TFail \/ TReturn \/ TRaise \/ TReject
+TLearnersDone == IsEvent("ldone") /\ LearnersDone /\ UNCHANGED exc
+
+Next == TLearnersDone \/ TRejectChanged \/ TStored \/ TLoad \/ TInterrupt \/ TBegin \/ TCall \/ TRet \/ TFail \/ TReturn \/ TRaise \/ TReject
 Spec == Init /\ [][Next]_<<mvars, tid, l, exc>>
 
 Track == IF l > TLCGet(tid) THEN TLCSet(tid, l) ELSE TRUE
